@@ -108,8 +108,26 @@ def triage_trusted(repo: Repo, site_key: str) -> bool:
         p = Path(__file__).with_name("triage_digests.json")
         _DIGESTS = json.loads(p.read_text()) if p.exists() else {}
     func, _kind, expr, _exc = (site_key.split("|") + ["", "", ""])[:4]
+    if _kind == "assert" and expr in ("state.parser", "self.parser"):
+        # the reason ("Parser.parse always passes itself to ParserState") is about the caller, not about the code
+        # around the assert: it is re-checked as a premise on every run instead of being pinned by a digest
+        return parser_is_set(repo)
     want = _DIGESTS.get(site_key)
     return want is not None and want == function_digest(repo, func, expr)
+
+
+def parser_is_set(repo: Repo) -> bool:
+    """Premise: every ParserState the interpreter builds gets the Parser itself in the field `parser` (arguments
+    bound to the constructor's parameters by role, sa/binding.py)."""
+    from .binding import role_of  # noqa: PLC0415
+
+    try:
+        init = repo.func("src/pest/state.py", "ParserState.__init__")
+        parse = repo.func("src/pest/parser.py", "Parser.parse")
+        calls = [n for n in ast.walk(parse) if isinstance(n, ast.Call) and ast.unparse(n.func) == "ParserState"]
+        return bool(calls) and all(role_of(c, init, "parser", "Parser.parse") == "self" for c in calls)
+    except (AnalysisError, KeyError):
+        return False
 
 
 def escape_engine(repo: Repo) -> Escape:
